@@ -16,8 +16,10 @@ PROPERTIES = {
                 "definitions and at the end (any count and order; positions included; number literals with fraction and exponent; "
                 "strings with escaped quotes and backslashes; CM_ texts over several lines; BA_DEF_DEF_/BA_ typed by the first "
                 "earlier BA_DEF_), unknown_one (an unknown line yields one "
-                "UnknownDef and does not change how the following lines are parsed), and refutations of the pre-fix discardLine (F8) "
-                "and BS_ (F9). On every run a grammar-based generator (all 16 definition kinds + unknown lines, layout variants) "
+                "UnknownDef and does not change how the following lines are parsed), int_conversion_exact / "
+                "int_conversion_every_int64 / int_field_is_written_value (Parser.int reads every decimal integer token as its "
+                "value, saturating at the int64 limits; the INT / HEX fields of the round trip are the written value for every "
+                "int64), and refutations of the pre-fix discardLine (F8), BS_ (F9) and Parser.int through float64 (F12). On every run a grammar-based generator (all 16 definition kinds + unknown lines, layout variants) "
                 "produces texts with the definitions they denote; implementation, extracted model and expectation are compared "
                 "three ways; P = implementation equals expectation.",
         "note": _NOTE + " The round-trip theorem is proved for single spaces between tokens, one uniform line-end run and blank "
@@ -55,8 +57,10 @@ PROPERTIES = {
 
 RULES = {
     "C04": "seeded grammar generator in the Go harness: files of 0..40 definitions over the 16 dispatching kinds + unknown lines "
-           "(1..8 tokens), BA_DEF_DEF_/BA_ typed by the first earlier BA_DEF_, identifiers up to 128 chars, uints up to 2^64-1, ints up "
-           "to 2^53, decimal/exponent floats, strings with \\\" / backslash / multi-byte UTF-8 (2-4 byte encodings, incl. runes whose low byte is NUL / LF / quote / backslash; "
+           "(1..8 tokens), BA_DEF_DEF_/BA_ typed by the first earlier BA_DEF_, identifiers up to 128 chars, uints up to 2^64-1, INT / HEX "
+           "attribute ranges, defaults and values over the whole int64 range as decimal integers (odd values beyond 2^53, 2^53 and "
+           "its neighbours, both int64 limits and their neighbours, one beyond each limit and beyond uint64 = saturation, leading "
+           "zeros) and as fraction / exponent spellings of integers below 2^53 (F12), decimal/exponent floats, strings with \\\" / backslash / multi-byte UTF-8 (2-4 byte encodings, incl. runes whose low byte is NUL / LF / quote / backslash; "
            "counted per definition kind as c04-utf8-in-string-<kind>) / embedded LF and CRLF; ENUM lists of 1..10 values in no "
            "particular order with duplicates, BA_DEF_DEF_ / BA_ enum values by index, by the name of a declared value (every "
            "position of the list after one ENUM definition in three: c04-enum-probe-by-name) and by an arbitrary string; "
@@ -113,7 +117,8 @@ ASSUME = [
     "C04_decimal_correctly_rounded, C04_hexadecimal_correctly_rounded, C04_bits_are_ieee754, via Flocq); that Go's readFloat "
     "syntax analysis, its dp > 310 / dp < -330 shortcuts and its Eisel-Lemire/slow-path algorithms agree with it is tested "
     "differentially by the num stream (deviation possible only for > 800 significant digits, see Dbc/DecFloat.v)",
-    "int64(float64) for the value 2^63 behaves as on amd64 (MinInt64)",
+    "int64(float64) is never reached with a value outside int64 after the fix F12 (every f >= 2^63 is clamped first); only the "
+    "regression model int_of_token_old assumes that int64(2^63) behaves as on amd64 (MinInt64)",
 ]
 
 
